@@ -7,7 +7,7 @@ ROOT = os.path.dirname(os.path.dirname(os.path.abspath(__file__)))
 PARSE = {"RulesModel.Proofs.ParseComplete": ["Rules.P.parse_iff", "Rules.P.D_unique"]}
 LEXG = {"RulesModel.Model.Regex": ["Rules.Regex.deriv_iff", "Rules.Regex.longest_spec"],
         "RulesModel.Model.Lexer": ["Rules.bestMatch_pos", "Rules.lexFuel_partition"]}
-MODELLED = ["hand transcription of jsonquery_visitor_impl.go / *_operation.go / evaluate.go / nester_error.go into Lean (validated by the correspondence check on every run)",
+MODELLED = ["jsonquery_visitor_impl.go is translated into Lean on every run and proved equal to the model (Proofs/VisitorGen; when that is `not established` the hand transcription validated by the correspondence carries it); hand transcription of *_operation.go / evaluate.go / nester_error.go into Lean (validated by the correspondence check on every run; recognised rows of the operation table are tied semantically)",
             "Go standard library (strconv, strings.ToLower, encoding/json, fmt), blang/semver v3.5.1 and the ANTLR 4.13 runtime: modelled, not verified"]
 
 def P(level, ties, thms, expl, extra_tb=(), assumptions=()):
@@ -61,7 +61,7 @@ ASSUME = {
  "C12": ["calls on private evaluator state are atomic steps in the model; Go-memory-model races are only observed with the race detector"],
  "C13": ["model values are immutable: aliasing writes are caught only by the deep-snapshot correspondence"],
  "C15": ["character-level invariance for whole rules is a theorem (C15_render: every rendering, under every choice of the free spellings, of a well-formed tree is read back as that tree) for trees that are well-formed in the decidable sense `wf`: every name / literal text / connective in the tree is a canonical token of its kind for the regenerated table, string literals are closed, right operands are primaries, integer literals carry no sign and no exponent; for signed / exponent integers C15_char_level3 gives the same under decidable conditions on neighbouring tokens; `wf` itself is checked per tree (kernel-evaluated instances), and the engine's agreement with it is the metamorphic correspondence"],
- "C16": ["calls not ended by a recovered panic; convertible literals; object-shaped paths"],
+ "C16": ["convertible literals; object-shaped paths (calls ended by a recovered panic are covered since repair D10)"],
  "C19": ["values attached with Set are abstracted to their JSON rendering by encoding/json (or 'not encodable')"],
  "C20": ["conformance of the generated Go lexer/parser is differential (tokens, accept/reject, tree shape), not a theorem"],
 }
